@@ -27,6 +27,9 @@
    Deviation
      QueryIsPure, ArgumentsUnchanged, EarlierResultsUnchanged   frame laws of every query (the replay
                       observes them around every call: symbol table, argument, previously returned array)
+     RejectedChangesNothing   a refused call (action Refused) leaves the object as it was (Dev.RefusedCallHalfUpdates)
+     element-wise     the caller's values are unsorted: an array result is the curve at each value, in the caller's order
+                      (part of PureFunction; Dev.MonotoneEnvelope: a running maximum along the array for SE)
    Deviations
      Dev.QueryTouchesTable / QueryWritesArgument / ResultBufferReused   one per frame law
      Dev.CachesByIdentity   the last single-carrier value is reused whenever the argument `is` the
@@ -41,6 +44,7 @@ CONSTANTS Steps,     \* set of in-place increments in dB
           MaxShift,  \* bound on the accumulated shift
           Fns,       \* set of query kinds
           Hows,      \* set of argument kinds
+          Refusals,  \* set of calls the object refuses with an exception (names; see Refused)
           Dev
 
 VARIABLES shift, lastObj, lastShift, ret, lab,
@@ -67,7 +71,9 @@ Advance(d) ==
 Query(fn, how) ==
   LET obj == IF how = "buffer" THEN "buffer" ELSE "fresh"
       hit == Dev.CachesByIdentity /\ obj = "buffer" /\ lastObj = "buffer"
-      at  == IF hit THEN lastShift ELSE shift
+      \* the caller's values are NOT sorted (Base is an unsorted vector): an array result is the element-wise curve
+      env == Dev.MonotoneEnvelope /\ fn \in {"SE", "SE0"} /\ how \notin {"scalar", "int", "0d", "list"}
+      at  == IF env THEN -1 ELSE IF hit THEN lastShift ELSE shift
   IN /\ ret' = [op |-> "query", at |-> at, exp |-> shift]
      /\ lab' = [fn |-> fn, how |-> how, d |-> 0]
      /\ lastObj' = obj
@@ -77,19 +83,30 @@ Query(fn, how) ==
                   held  |-> ~(Dev.ResultBufferReused /\ ret.op = "query")]
      /\ UNCHANGED shift
 
+\* a call that the object REFUSES (raises): a table of 3 symbols / a 2-d table / an empty table handed to
+\* setConstellation, an index >= M handed to modulate, a packet length that is not a number ...  Whatever is refused
+\* must leave the object exactly as it was (the replay only judges calls that really raise).
+Refused(which) ==
+  /\ ret' = [op |-> "refused", at |-> shift, exp |-> shift]
+  /\ lab' = [fn |-> "refused", how |-> which, d |-> 0]
+  /\ frame' = [table |-> ~Dev.RefusedCallHalfUpdates, args |-> TRUE, held |-> TRUE]
+  /\ UNCHANGED <<shift, lastObj, lastShift>>
+RefusedAny == \E which \in Refusals : Refused(which)
+
 AdvanceAny == \E d \in Steps : Advance(d)
 QueryAny   == \E fn \in Fns : \E how \in Hows : Query(fn, how)
-Next == AdvanceAny \/ QueryAny
+Next == AdvanceAny \/ QueryAny \/ RefusedAny
 
 PureFunction == ret.op = "query" => ret.at = ret.exp
 \* frame laws (notes/CALL_DISCIPLINE.md): a query leaves the modulator as it was, its argument as it was passed,
 \* and the result of the previous query as it was returned
-QueryIsPure == frame.table
+QueryIsPure == ret.op = "query" => frame.table
+RejectedChangesNothing == ret.op = "refused" => frame.table
 ArgumentsUnchanged == frame.args
 EarlierResultsUnchanged == frame.held
 TypeOK == /\ shift \in 0..MaxShift /\ lastShift \in 0..MaxShift
           /\ lastObj \in {"none", "buffer", "fresh"}
-          /\ ret.op \in {"none", "advance", "query"}
+          /\ ret.op \in {"none", "advance", "query", "refused"}
 
 Emit == EmitEdge([pre  |-> [shift |-> shift, lastObj |-> lastObj, lastShift |-> lastShift],
                   post |-> [shift |-> shift', lastObj |-> lastObj', lastShift |-> lastShift'],
